@@ -585,6 +585,10 @@ fn one_case(o: &Opts, w: &mut dyn Write, st: &mut Stats, p: &Profile, case: u64,
         let adversary = p.adversarial && l >= 2;
         g.sims.push(Sim { l, cid: format!("c{l}"), clean, adversary, ..Default::default() });
         g.connect(l);
+        if adversary {
+            // nothing is promised to a client that misbehaves on purpose: tell the monitors
+            g.op(format!("note adv {l}"));
+        }
     }
     for _ in 0..steps {
         if g.dead {
